@@ -332,5 +332,40 @@ def run(rep: Report, tier: str) -> None:
                             f"DS_1#{_c}: semantic analysis declares {want} but the transpiler's structure for the intermediate result is {gotb}: an operator applied to it in the same statement "
                             f"works on the wrong components"))
     rep.floor("R10.6 membership instances", _nm, 4)
+    # ---- R10.7: exists_in returns ONE datapoint per datapoint of its left operand (identifiers stay unique) ----
+    rep.rule("R10.7", "exists_in: the right operand is only probed (EXISTS / IN subquery) or joined on a key that is unique in it - the left datapoints are not multiplied")
+    import re as _re
+    from sa.e6 import Interp as _Interp, Raised as _Raised
+    _fe = P.func(_sm.TRQ + "._exists_in_sql")
+    _n7 = 0
+    for _lab, _lids, _rids in (("equal", ["A", "B"], ["A", "B"]), ("right-superset", ["A"], ["A", "B"]), ("left-superset", ["A", "B"], ["A"])):
+        _L, _R = _M.ds("DS_1", _lids, ["M"]), _M.ds("DS_2", _rids, ["M"])
+        _ext = {"self._get_dataset_structure": lambda x: {"L": _L, "R": _R}[x], "self._get_dataset_sql": lambda x: f'"{x}"', "quote_name": lambda n: f'"{n}"',
+                "self._join_on_clause": lambda ids, a, b: " AND ".join(f'{a}."{i}" = {b}."{i}"' for i in ids) or "1=1", "self._as_subquery": lambda x: f"(SELECT * FROM {x})"}
+        try:
+            _txt = str(_Interp(P, externals=_ext).call(_fe, {"self": _sm.MTranspiler(), "left_node": "L", "right_node": "R"}))
+        except (_Unm, _Raised) as e:
+            raise AnalysisError(f"R10.7: _exists_in_sql outside the evaluator's language: {e}")
+        _n7 += 1
+        rep.instance("R10.7", f"exists_in/{_lab}", nontrivial=True, sample={"sql": _txt[:200]})
+        # top level of the statement: text outside every parenthesis
+        _depth, _top = 0, ""
+        for _ch in _txt:
+            if _ch == "(":
+                _depth += 1
+            elif _ch == ")":
+                _depth -= 1
+            elif _depth == 0:
+                _top += _ch
+            if _ch in "()" and _depth == 0:
+                _top += " () "
+        _mj = _re.search(r"\bJOIN\b", _top, _re.I)
+        if _mj:
+            _keys = set(_re.findall(r'r\."([^"]+)"', _txt[_txt.upper().rfind(" ON "):])) if " ON " in _txt.upper() else set()
+            if not set(_rids) <= _keys:
+                rep.add(Finding("R10.7", f"R10.7/exists_in/{_lab}", _fe.module.rel, _fe.node.lineno, _fe.qualname,
+                                f"exists_in(DS_1 ids {_lids}, DS_2 ids {_rids}) is written as a JOIN with DS_2 on {sorted(_keys)}: DS_2 has several datapoints per value of those keys "
+                                f"(its identifiers are {_rids}), so every matching left datapoint is returned once per match - duplicate identifiers in the result"))
+    rep.floor("R10.7 shapes", _n7, 3)
     rep.assumptions = ["structure objects are changed only through attribute stores / dict mutation of .components (no setattr/__dict__ tricks: none exist in the package)",
                        "values, uniqueness and nullability of the DATA are produced by DuckDB and are not decided here"]
